@@ -5,8 +5,8 @@ package main
 // (post-crash / post-fault) directory from a fresh process.
 
 import (
-	"crypto/sha1"
 	"bytes"
+	"crypto/sha1"
 	"encoding/json"
 	"fmt"
 	"math/rand"
